@@ -1493,6 +1493,43 @@ func runFactoryCollections(a *Analyzer, r *Results) {
 						}
 						return true
 					}
+					// an empty slice that the function then fills unconditionally, element by element, through the field
+					if ms, isMS := v.(*ssa.MakeSlice); isMS {
+						if k, isC := ms.Len.(*ssa.Const); isC && k.Int64() == 0 {
+							return true
+						}
+					}
+					if ap, isCall := v.(*ssa.Call); isCall && isBuiltin(ap, "append") {
+						if ld, isLd := ap.Call.Args[0].(*ssa.UnOp); isLd {
+							if fa2, isFA := ld.X.(*ssa.FieldAddr); isFA && fa2.Field == fa.Field && fa2.X == fa.X {
+								if l := a.Loops(f).Innermost(st.Block()); l != nil && l.dominatesAllLatches(st.Block()) {
+									return true
+								}
+							}
+						}
+					}
+					// one of the results of a helper: judged on what the helper returns
+					if ex, isEx := v.(*ssa.Extract); isEx && depth < 2 {
+						if hc, isCall := ex.Tuple.(*ssa.Call); isCall {
+							if g := hc.Call.StaticCallee(); g != nil && a.P.IsLib(g) && strings.HasSuffix(funcPkgPath(g), "services/messagesfactory") {
+								gc := a.NewFCtx(g, a.EntryEnv(g, nil), 0)
+								okAll := true
+								for _, gb := range g.Blocks {
+									if ret, isRet := gb.Instrs[len(gb.Instrs)-1].(*ssa.Return); isRet && ex.Index < len(ret.Results) {
+										rv := ret.Results[ex.Index]
+										if k, isC := rv.(*ssa.Const); isC && k.IsNil() {
+											continue
+										}
+										tv2 := gc.Term(rv)
+										if tv2.Op != "root" && tv2.Op != "map" {
+											okAll = false
+										}
+									}
+								}
+								return okAll
+							}
+						}
+					}
 					return false
 				}
 				okv := okVal(st.Val, 0)
